@@ -232,7 +232,9 @@ def sigma_guards(ctx, rule='guard-dominates-use'):
 
 
 SQUARE_WRAPPERS = ('DenseSymShiftSolve', 'SparseSymShiftSolve', 'DenseGenRealShiftSolve', 'SparseGenRealShiftSolve', 'DenseGenComplexShiftSolve',
-                   'SparseGenComplexShiftSolve', 'DenseCholesky', 'SparseCholesky', 'SparseRegularInverse', 'SymShiftInvert')
+                   'SparseGenComplexShiftSolve', 'DenseCholesky', 'SparseCholesky', 'SparseRegularInverse', 'SymShiftInvert',
+                   # a symmetric / Hermitian matrix is square by definition: the product wrappers that read one triangle must reject others
+                   'DenseSymMatProd', 'DenseHermMatProd', 'SparseSymMatProd', 'SparseHermMatProd')
 
 
 def square_guards(ctx, rule='square-matrix-guard'):
@@ -270,6 +272,42 @@ def square_guards(ctx, rule='square-matrix-guard'):
                             problems.append('shape %s is %s' % (dict(zip(calls + flds, vals)), 'rejected' if rej else 'accepted'))
                             break
             ctx.check(not problems, rule, w, fn.qname, 'rejects exactly the non-square (or mismatching) shapes up to 3x3' if not problems else '; '.join(problems))
+    # the solvers themselves: an operator (the library's product wrappers for general matrices, or a user-defined one) may be
+    # rectangular; the eigen-solver needs a square one and must say so instead of iterating on mismatched lengths
+    nb = 0
+    for tmpl in sorted(DOC_RANGES):
+        for fn in [f for f in ctx.F.concrete() if f.cls == tmpl and f.d.get('ctor')]:
+            if any(i['member'] == '<delegating>' for i in fn.inits):
+                continue
+            gs = [(fn, g, t) for g, t in guards_of_throws(fn)]
+            for c in fn.walk():
+                if c['k'] == 'CXXMemberCallExpr' and c.get('org') == 'S':
+                    o = fn.call_object(c)
+                    if o is not None and fn.strip(o)['k'] == 'CXXThisExpr' and ctx.F.resolve(c) is not None:
+                        h = ctx.F.resolve(c)
+                        gs += [(h, g, t) for g, t in guards_of_throws(h)]
+            found = False
+            for gf, g, t in gs:
+                calls = sorted(set(gf.s(x) for x in gf.walk(g['cond']) if x['k'] == 'CXXMemberCallExpr' and x.get('callee') in ('rows', 'cols')))
+                kinds = set(x.get('callee') for x in gf.walk(g['cond']) if x['k'] == 'CXXMemberCallExpr' and x.get('callee') in ('rows', 'cols'))
+                if kinds != {'rows', 'cols'} or len(calls) != 2 or 'invalid_argument' not in t.get('thrown', ''):
+                    continue
+                ok = True
+                for vals in itertools.product((1, 2, 3), repeat=2):
+                    try:
+                        rej = ev(gf, g['cond'], {}, {c_: (lambda a, v=v: v) for c_, v in zip(calls, vals)})
+                    except CannotEval:
+                        ok = False
+                        break
+                    if rej != (vals[0] != vals[1]):
+                        ok = False
+                found = found or ok
+            nb += 1
+            ctx.check(found, rule, '%s::%s/operator-is-square' % (tmpl.replace('Spectra::', ''), fn.name), fn.qname,
+                      'the constructor rejects an operator whose rows() and cols() differ with std::invalid_argument' if found else
+                      'the constructor never compares rows() and cols() of the operator: a rectangular operator (DenseGenMatProd of a 3x4 matrix) is accepted and the iteration runs on vectors of mismatched length')
+    if nb < 4:
+        raise AnalysisBroken('only %d solver-base constructors analysed for the square-operator guard' % nb)
 
 
 
@@ -387,9 +425,53 @@ def validation_precedes_allocation(ctx, rule='no-allocation-sized-by-unvalidated
     if len(early) != 1 or len(late) != 1:
         raise AnalysisBroken('positive control for allocation-before-validation not matched exactly (early %d, late %d)' % (len(early), len(late)))
 
+def rejected_init_leaves_uninitialised(ctx, rule='rejected-init-leaves-no-half-built-state'):
+    """init() can be rejected (zero start vector: std::invalid_argument) or interrupted (the user's operator throws).  The
+    factorization records how far it is built in its dimension field: 0 = nothing, 1 = after init(), ncv = after compute(); the
+    solver's compute() refuses a dimension-0 object.  A rejected init() on an object that was used before must not leave the
+    dimension of the earlier run standing next to arrays this call has already zeroed (compute() would then "converge" at once on
+    H = 0 and report Successful): every path from the entry of the factorization's init() to a statement that can throw --
+    a throw expression or a call into the user's operator -- passes an assignment of 0 to the dimension field first."""
+    from . import paths
+    n = 0
+    seen = set()
+    for fn in ctx.F.concrete():
+        if fn.cls != 'Spectra::Arnoldi' or fn.name != 'init' or not fn.cfg or fn.mangled in seen:
+            continue
+        seen.add(fn.mangled)
+        resets = [x for x in fn.walk() if x['k'] == 'BinaryOperator' and x.get('op') == '=' and sym(fn, x, inline=False) == ('=', ('F', 'm_k'), ('lit', '0'))]
+        rids = set(x['id'] for x in resets)
+
+        def may_throw(n_):
+            if n_['k'] == 'CXXThrowExpr':
+                return True
+            if n_['k'] == 'CXXMemberCallExpr' and n_.get('callee') in ('perform_op', 'norm', 'inner_product', 'trans_product', 'adjoint_product'):
+                o = fn.call_object(n_)
+                return o is not None and fn.field_name(fn.strip(o)) == 'm_op'
+            return False
+        points = [x for x in fn.walk() if may_throw(x)]
+        if len(points) < 3:
+            raise AnalysisBroken('%s: only %d throwing points found' % (fn.qname, len(points)))
+        hit = paths.search(fn, [], stop=lambda n_: n_['id'] in rids, target=may_throw, include_entry=True)
+        # the dimension is set to its positive value only after the last throwing point
+        sets = [x for x in fn.walk() if x['k'] == 'BinaryOperator' and x.get('op') == '=' and sym(fn, x['c'][0], inline=False) == ('F', 'm_k') and x['id'] not in rids]
+        late = None
+        for x in sets:
+            late = late or paths.search(fn, [fn.pos_of(x)], stop=lambda n_: False, target=may_throw)
+        n += 1
+        ok = hit is None and late is None and bool(sets)
+        ctx.check(ok, rule, 'Arnoldi::init', fn.qname,
+                  'the dimension is reset to 0 before the first of %d statements that can throw and set to its final value after the last' % len(points) if ok else
+                  ('a statement that can throw (%s) is reached while the dimension field still holds the value of an earlier run: after a rejected init() (zero start vector) on a '
+                   'used object, compute() skips the factorization, finds H = 0 "converged" and reports Successful with zero eigenvalues' % (hit[-1].split(': ', 1)[-1][:50] if hit else 'after the dimension was set')))
+    if n < 1:
+        raise AnalysisBroken('Arnoldi::init not analysed')
+
+
 def run(ctx):
     range_guards(ctx)
     validation_precedes_allocation(ctx)
+    rejected_init_leaves_uninitialised(ctx)
     thrown_types(ctx)
     c18.dispatch(ctx)
     sigma_guards(ctx)
